@@ -94,13 +94,22 @@ def check(facts, res):
             # ---- parent walk
             gp = [bi for bi, tt in calls if tt.callee.name == "get_parent" and "revisiontree::" in tt.callee.target()]
             if gp:
+                # the cursor: a loop-carried revision variable that feeds the get_parent call (directly, or through the lookup of
+                # the entry get_parent is called on); a step assigns it from the payload of that call
+                cursors = set()
+                for gb in gp:
+                    for a_ in b.blocks[gb].term.args:
+                        for x in walk(du.operand_term(a_, 12)):
+                            if x[0] == "var" and b.local_ty(x[1]).replace("&", "").strip().endswith("revision::Revision"):
+                                ds = du.defs.get(x[1], [])
+                                if any(d.block in loop for d in ds) and any(d.block not in loop for d in ds):
+                                    cursors.add(x[1])
                 steps = set()
                 for bi in loop:
                     for st_ in b.blocks[bi].stmts:
-                        if st_.kind == "assign" and not st_.place.proj and st_.rv.kind in ("use", "ref"):
+                        if st_.kind == "assign" and not st_.place.proj and st_.rv.kind in ("use", "ref") and st_.place.local in cursors:
                             vt = du.rvalue_term(st_.rv, 10)
-                            if any(x[0] == "call" and x[3] in gp and callee_name(x) == "get_parent" for x in walk(vt)) and \
-                                    b.local_ty(st_.place.local).replace("&", "").strip().endswith("revision::Revision"):
+                            if any(x[0] == "call" and x[3] in gp and callee_name(x) == "get_parent" for x in walk(vt)):
                                 steps.add(bi)
                 ok = bool(steps) and not cfg.reaches(h, h, avoid=steps)
                 res.instance("R5", "%s: parent walk: every cycle advances the cursor to RevisionTree parent of the current revision: %s" % (b.path, ok), b.loc(t.line))
